@@ -19,6 +19,7 @@ import (
 	"fmt"
 	"os"
 	"reflect"
+	"runtime/debug"
 	"sort"
 	"strconv"
 	"strings"
@@ -153,6 +154,13 @@ func genPath(r *common.Rand, walk any) string {
 				continue
 			}
 		case []any:
+			if r.Chance(1, 4) {
+				// a slice element; the walk continues in the Go slice it denotes
+				st, en := genBounds(r, len(c))
+				el = append(el, "l"+st+":"+en)
+				cur = sliceOf(c, st, en)
+				continue
+			}
 			if follow && len(c) > 0 {
 				j := r.Intn(len(c))
 				if r.Chance(1, 5) {
@@ -165,13 +173,64 @@ func genPath(r *common.Rand, walk any) string {
 			}
 		}
 		cur = nil
-		if r.Bool() {
+		if r.Chance(1, 8) {
+			st, en := genBounds(r, r.Intn(4))
+			el = append(el, "l"+st+":"+en)
+		} else if r.Bool() {
 			el = append(el, "k"+common.Hex(common.Pick(r, keyPool)))
 		} else {
 			el = append(el, "i"+strconv.Itoa(common.Pick(r, []int{0, 0, 1, 1, 2, 3, 4, 6, 11, -1, -1, -2, -4, 536870912})))
 		}
 	}
 	return strings.Join(el, ",")
+}
+
+// genBounds draws the two bounds of a slice element for an array of length n: null, in range, negative,
+// at and beyond the end, crossing.
+func genBounds(r *common.Rand, n int) (string, string) {
+	b := func() string {
+		switch k := r.Intn(8); {
+		case k == 0:
+			return "n"
+		case k <= 3:
+			return strconv.Itoa(r.Intn(n + 1))
+		case k == 4:
+			return strconv.Itoa(-r.Range(1, n+1))
+		case k == 5:
+			return strconv.Itoa(n + r.Intn(3))
+		case k == 6:
+			return "0"
+		default:
+			return strconv.Itoa(r.Range(-2, 4))
+		}
+	}
+	return b(), b()
+}
+
+func clampIdx(i, lo, hi int) int {
+	if i < 0 {
+		i += hi
+	}
+	if i < lo {
+		return lo
+	} else if i < hi {
+		return i
+	}
+	return hi
+}
+
+// sliceOf is the generator's own reading of a slice element (for the walk only).
+func sliceOf(c []any, st, en string) []any {
+	s, e := 0, len(c)
+	if st != "n" {
+		i, _ := strconv.Atoi(st)
+		s = clampIdx(i, 0, len(c))
+	}
+	if en != "n" {
+		i, _ := strconv.Atoi(en)
+		e = clampIdx(i, s, len(c))
+	}
+	return c[s:e]
 }
 
 // ------------------------------------------------------------------------------------------------
@@ -244,6 +303,16 @@ func buildPath(body string) []any {
 	for _, e := range strings.Split(body, ",") {
 		if e[0] == 'k' {
 			p = append(p, common.UnHex(e[1:]))
+		} else if e[0] == 'l' {
+			bs := strings.SplitN(e[1:], ":", 2)
+			m := map[string]any{"start": nil, "end": nil}
+			for i, name := range []string{"start", "end"} {
+				if bs[i] != "n" {
+					x, _ := strconv.Atoi(bs[i])
+					m[name] = x
+				}
+			}
+			p = append(p, m)
 		} else {
 			i, _ := strconv.Atoi(e[1:])
 			p = append(p, i)
@@ -334,6 +403,25 @@ func fingerprint(v any) string {
 		}
 	}
 	return sb.String()
+}
+
+var zerobase = reflect.ValueOf(make([]any, 0)).Pointer()
+
+// deadRegistrations counts the addresses registered in the allocator that no root reaches (the address
+// shared by all zero-capacity arrays excluded).
+func deadRegistrations(s *state) int {
+	_, idx := numbering(s.roots())
+	n := 0
+	for _, k := range reflect.ValueOf(s.a).MapKeys() {
+		p := uintptr(k.Uint())
+		if p == zerobase {
+			continue
+		}
+		if _, ok := idx[p]; !ok {
+			n++
+		}
+	}
+	return n
 }
 
 type cell struct {
@@ -438,6 +526,9 @@ func render(s *state) string {
 
 // exec runs one protocol line on the real natives.
 func exec(line string, nat map[string]gojq.VerifNativeInfo) (answer string, written int, unowned []string) {
+	// no collection while one line runs: the model draws fresh labels, and a registered array that is
+	// dead (see Z=) would otherwise lend its address to a later allocation
+	defer debug.SetGCPercent(debug.SetGCPercent(-1))
 	segs := strings.Split(line, " ; ")
 	toks := strings.Fields(segs[0])
 	v, _, err := buildLit(toks[1:])
@@ -510,7 +601,7 @@ func exec(line string, nat map[string]gojq.VerifNativeInfo) (answer string, writ
 				}
 			}
 		}
-		out = append(out, "ok "+render(s)+" W="+strings.Join(ws, ","))
+		out = append(out, "ok "+render(s)+" W="+strings.Join(ws, ",")+" Z="+strconv.Itoa(deadRegistrations(s)))
 	}
 	return strings.Join(out, " ; "), written, unowned
 }
@@ -522,7 +613,7 @@ func heapStream(ctx *common.Ctx) {
 		"random operation sequences (1–9 ops: _setpath, setpath, allocator getpath with release, plain getpath creating aliases, _delpaths, delpaths, new allocator; payloads: fresh literals, registers, [r,r], {x:r}) on random nested values with explicit capacities; distinct = distinct implementation answers")
 	orc := ctx.NewOracle("heap-writes", "model-free: in every operation of the heap stream, a pre-existing container whose shallow content (full backing array) changed must have been registered in the allocator passed to the native; setpath/delpaths without allocator must change nothing that existed; distinct = operations that wrote at least one pre-existing container in place")
 	var lines, impl []string
-	n := ctx.N(6000, 40000)
+	n := ctx.N(8000, 50000)
 	if replayLine != "" {
 		n = 0
 	}
@@ -535,7 +626,25 @@ func heapStream(ctx *common.Ctx) {
 		for j := 0; j < nops; j++ {
 			cur := currentValue(line, nat)
 			var op string
-			src := func() string {
+			endsInSlice := func(p string) bool {
+				i := strings.LastIndex(p, ",")
+				return len(p) > i+1 && p[i+1] == 'l'
+			}
+			arrLit := func() string {
+				for {
+					if l := genLit(r, 1); l[0] == "[" {
+						return "L " + strings.Join(l, " ")
+					}
+				}
+			}
+			// a path that ends with a slice takes an array: mostly give it one
+			srcFor := func(p string) string {
+				if endsInSlice(p) && r.Chance(5, 6) {
+					if nregs > 0 && r.Bool() {
+						return "W" + strconv.Itoa(r.Intn(nregs))
+					}
+					return arrLit()
+				}
 				if nregs > 0 && r.Chance(3, 5) {
 					return common.Pick(r, []string{"R", "W", "W", "O"}) + strconv.Itoa(r.Intn(nregs))
 				}
@@ -547,15 +656,31 @@ func heapStream(ctx *common.Ctx) {
 				line += " ; G p:" + p
 				nregs++
 				op = "S p:" + p + " " + common.Pick(r, []string{"R", "W", "W", "O"}) + strconv.Itoa(nregs-1)
+				if endsInSlice(p) {
+					// the register holds the clone of the slice: the same length (in place when owned), or not
+					op = "S p:" + p + " " + common.Pick(r, []string{"R", "R", "W"}) + strconv.Itoa(nregs-1)
+				}
 				if r.Chance(1, 4) {
-					op = "S p:" + p + " L " + strings.Join(genLit(r, 1), " ")
+					op = "S p:" + p + " " + srcFor(p)
 				}
 			case k < 10:
-				op = "S p:" + genPath(r, cur) + " " + src()
+				p := genPath(r, cur)
+				op = "S p:" + p + " " + srcFor(p)
 			case k < 12:
-				op = "s p:" + genPath(r, cur) + " " + src()
+				p := genPath(r, cur)
+				op = "s p:" + p + " " + srcFor(p)
 			case k < 13:
-				op = "g p:" + genPath(r, cur)
+				p := genPath(r, cur)
+				if endsInSlice(p) && r.Chance(3, 4) {
+					// a plain getpath that ends with a slice returns a second header onto the cell, which
+					// the model answers `?` for: keep only a few
+					if i := strings.LastIndex(p, ","); i >= 0 {
+						p = p[:i]
+					} else {
+						p = ""
+					}
+				}
+				op = "g p:" + p
 				nregs++
 			case k < 14:
 				op = "G p:" + genPath(r, cur)
@@ -587,8 +712,21 @@ func heapStream(ctx *common.Ctx) {
 		if written > 0 {
 			orc.Distinct++
 		}
-		for _, op := range strings.Split(line, " ; ")[1:] {
+		answers := strings.Split(ans, " ; ")
+		for k, op := range strings.Split(line, " ; ")[1:] {
 			st.Distribution["op "+op[:1]]++
+			if strings.Contains(op, ":l") || strings.Contains(op, ",l") || strings.Contains(op, "|l") {
+				st.Distribution["slice path in op "+op[:1]]++
+				if k+1 < len(answers) && strings.HasPrefix(answers[k+1], "ok") {
+					st.Distribution["slice path in op "+op[:1]+", no error"]++
+					if !strings.Contains(answers[k+1], " W= ") {
+						st.Distribution["slice path in op "+op[:1]+", wrote a pre-existing container in place"]++
+					}
+				}
+			}
+		}
+		if strings.Contains(ans, " Z=") && !strings.HasSuffix(ans, " Z=0") {
+			st.Distribution["ends with dead registrations"]++
 		}
 		if strings.Contains(ans, "^") {
 			st.Distribution["aliased state"]++
@@ -613,6 +751,13 @@ func heapStream(ctx *common.Ctx) {
 			ctx.Violate("written-unowned:"+replayLine, u, map[string]any{"line": replayLine, "observed": ans})
 		}
 	}
+	if f := os.Getenv("C05_DUMP"); f != "" { // development: the protocol lines and the implementation's answers
+		var sb strings.Builder
+		for i := range lines {
+			sb.WriteString(lines[i] + "\n  => " + impl[i] + "\n")
+		}
+		os.WriteFile(f, []byte(sb.String()), 0o644)
+	}
 	orc.Samples = []string{lines[0], lines[len(lines)/2]}
 	ctx.RunStream(st, lines, impl)
 }
@@ -624,6 +769,7 @@ func execAnswer(line string, nat map[string]gojq.VerifNativeInfo) string {
 
 // currentValue re-executes the line built so far and returns the current value (for the path generator).
 func currentValue(line string, nat map[string]gojq.VerifNativeInfo) any {
+	defer debug.SetGCPercent(debug.SetGCPercent(-1))
 	segs := strings.Split(line, " ; ")
 	toks := strings.Fields(segs[0])
 	v, _, _ := buildLit(toks[1:])
